@@ -181,6 +181,7 @@ type Interp struct {
 	clock  *smt.Term // last clock reading
 	clockN int
 	clockLogical bool
+	clockReads   []IntV
 	mainDone bool
 	quiescing bool
 	chooseSeq map[string]int
